@@ -42,12 +42,17 @@ func mustOpen(dir string, cfg Config, label string) *Stack {
 }
 
 // addTxn commits one transaction: private ref, shared ref and a reflog entry.
-func addTxn(st *Stack, k byte, withLog bool) error {
+func addTxn(st *Stack, k byte, withLog bool) error { return addTxnVal(st, k, 0, withLog) }
+
+// addTxnVal: as addTxn; payload is an extra (possibly symbolic) byte of the private ref's value.
+func addTxnVal(st *Stack, k byte, payload byte, withLog bool) error {
 	hs := hsOf(st.cfg)
 	return st.Add(func(w *Writer) error {
 		ui := st.NextUpdateIndex()
 		w.SetLimits(ui, ui)
-		if err := w.AddRef(&RefRecord{RefName: "p" + string([]byte{'0' + k}), UpdateIndex: ui, Value: hashWith(hs, k, 1)}); err != nil {
+		pv := hashWith(hs, k, 1)
+		pv[3] = payload
+		if err := w.AddRef(&RefRecord{RefName: "p" + string([]byte{'0' + k}), UpdateIndex: ui, Value: pv}); err != nil {
 			return err
 		}
 		if err := w.AddRef(&RefRecord{RefName: "s", UpdateIndex: ui, Value: hashWith(hs, k, 2)}); err != nil {
@@ -73,13 +78,14 @@ func seedStack(dir string, cfg Config, n int) {
 }
 
 type stackSnapshot struct {
-	refs map[string]byte // name -> first value byte (0xff: present with another payload)
-	logs int
-	ok   bool
+	refs    map[string]byte // name -> first value byte (0xff: present with another payload)
+	payload map[string]byte // name -> value byte 3
+	logs    int
+	ok      bool
 }
 
 func snapshot(st *Stack, label string) stackSnapshot {
-	s := stackSnapshot{refs: map[string]byte{}}
+	s := stackSnapshot{refs: map[string]byte{}, payload: map[string]byte{}}
 	m := st.Merged()
 	it, err := m.SeekRef("")
 	VerifAssert(err == nil, label+"-seekref")
@@ -99,6 +105,7 @@ func snapshot(st *Stack, label string) stackSnapshot {
 		v := byte(0xff)
 		if len(r.Value) > 0 {
 			v = r.Value[0]
+			s.payload[r.RefName] = r.Value[3]
 		}
 		s.refs[r.RefName] = v
 	}
@@ -176,6 +183,7 @@ type procState struct {
 	committed bool
 	dir       string
 	cfg       Config
+	payload   byte // arbitrary (symbolic) content byte of the transaction
 }
 
 func runOp(p *procState) {
@@ -188,12 +196,12 @@ func runOp(p *procState) {
 		}
 		st.disableAutoCompact = true
 		p.st = st
-		p.err = addTxn(st, p.id, true)
+		p.err = addTxnVal(st, p.id, p.payload, true)
 	case opAdd:
-		p.err = addTxn(p.st, p.id, true)
+		p.err = addTxnVal(p.st, p.id, p.payload, true)
 	case opAddAuto:
 		p.st.disableAutoCompact = false
-		p.err = addTxn(p.st, p.id, true)
+		p.err = addTxnVal(p.st, p.id, p.payload, true)
 	case opCompactAll:
 		p.err = p.st.CompactAll(nil)
 	case opCompactFirstTwo:
@@ -244,6 +252,9 @@ func scenario(ops []int, nInit int, hash int, maxPre int, checks int) {
 	var procs []*procState
 	for i, op := range ops {
 		p := &procState{id: byte(7 + i), op: op, dir: dir, cfg: cfg}
+		if isAdder(op) {
+			p.payload = VerifU8()
+		}
 		if op != opOpenAdd {
 			VerifAs(i + 1)
 			p.st = mustOpen(dir, cfg, "open")
@@ -332,6 +343,11 @@ func finalChecks(dir string, cfg Config, nInit int, procs []*procState, checks i
 		VerifAssert(ok, "lost-update")
 		VerifAssert(!ok || gv == v, "altered-update")
 	}
+	for _, p := range procs {
+		if _, committed := first[p]; committed && isAdder(p.op) {
+			VerifAssert(got.payload["p"+string([]byte{'0' + p.id})] == p.payload, "altered-update")
+		}
+	}
 	for n := range got.refs {
 		_, ok := want[n]
 		VerifAssert(ok, "phantom-update")
@@ -361,7 +377,7 @@ func pickPair() []int {
 }
 
 // Harness_C04_pairs: two processes, one operation each: no lost, altered or phantom update; Add succeeds iff committed; only lock failures.
-// bounds: 2 processes (own handles, opened before either runs); operation pairs: Add/Add, CompactAll/Add, CompactAll/Add+auto-compaction, compactRange(0,1)/CompactAll, Add/Clean, CompactAll/reload, Add/Close, Add/open+Add, open+Add/open+Add, CompactAll/open+Add (open+Add: the handle is opened inside the process, so it may be fresh or stale) (thorough: all 64 pairs of the 8 operations); initial stack of 3 tables; every schedule with <= 2 preemptions at visible filesystem steps (thorough 3); sha1 (thorough: sha256 too)
+// bounds: 2 processes (own handles, opened before either runs); operation pairs: Add/Add, CompactAll/Add, CompactAll/Add+auto-compaction, compactRange(0,1)/CompactAll, Add/Clean, CompactAll/reload, Add/Close, Add/open+Add, open+Add/open+Add, CompactAll/open+Add (open+Add: the handle is opened inside the process, so it may be fresh or stale) (thorough: all 64 pairs of the 8 operations); transaction payload byte arbitrary (symbolic); initial stack of 3 tables; every schedule with <= 2 preemptions at visible filesystem steps (thorough 3); sha1 (thorough: sha256 too)
 // covers: done
 func Harness_C04_pairs() {
 	scenario(pickPair(), 3, VerifChoose(1+VerifTier()), 2+VerifTier(), chkFinal|chkErrors)
